@@ -1,121 +1,200 @@
 package main
 
 import (
+	"flag"
 	"fmt"
 	"os"
+	"path/filepath"
 	"sort"
+	"strconv"
+	"strings"
 	"time"
 
 	eng "verif.local/engine"
 )
 
+const verifDir = "/verif"
+
+var l1Props = map[string]bool{"C01": true, "C03": true, "C05": true, "C06": true, "C07": true, "C08": true, "C09": true, "C19": true}
+
 func main() {
-	if len(os.Args) > 1 && os.Args[1] == "l1probe" {
+	if len(os.Args) < 2 {
+		fmt.Println("usage: vcheck <property-id> [--tier quick|thorough] | vcheck replay <path>")
+		os.Exit(2)
+	}
+	if os.Args[1] == "replay" {
+		ok, out, err := eng.RunReplay(os.Args[2])
+		fmt.Print(out)
+		if err != nil {
+			fmt.Println("replay error:", err)
+			os.Exit(2)
+		}
+		if ok {
+			os.Exit(1)
+		}
+		os.Exit(0)
+	}
+	if os.Args[1] == "l1probe" {
 		l1probe()
 		return
 	}
-	fmt.Println("usage")
-}
-
-func l1probe() {
-	cubes := []*eng.Cube{
-		{ID: "a", Deps: [][]int{{}}, N: 1, Outcomes: []int{eng.OutOK, eng.OutErr}},
-		{ID: "b", Deps: [][]int{{}, {0}}, N: 1, Outcomes: []int{eng.OutOK, eng.OutErr}},
-		{ID: "c", Deps: [][]int{{}, {0}, {0, 1}}, N: 2, Outcomes: []int{eng.OutOK, eng.OutErr}},
-		{ID: "d", Deps: [][]int{{}, {}, {}, {}}, N: 2, Outcomes: []int{eng.OutOK, eng.OutErr}},
-		{ID: "e", Deps: [][]int{{}, {}}, N: 1, Emitter: true, Ticks: 2, Outcomes: []int{eng.OutOK}},
-		{ID: "f", Deps: [][]int{{}, {}, {}}, N: 2, Outcomes: []int{eng.OutOK, eng.OutErr}},
+	prop := os.Args[1]
+	fs := flag.NewFlagSet("vcheck", flag.ExitOnError)
+	tier := fs.String("tier", os.Getenv("VERIF_TIER"), "quick|thorough")
+	solver := fs.String("solver", "z3-new", "z3-new|cvc5|z3")
+	fs.Parse(os.Args[2:])
+	if *tier == "" {
+		*tier = "quick"
 	}
-	t0 := time.Now()
-	src := eng.HarnessSource(cubes)
-	P, err := eng.Load("/repo/scheduler", map[string][]byte{"/repo/scheduler/zz_verif_harness.go": []byte(src)}, "", ".")
-	if err != nil {
-		fmt.Println("load:", err)
+	seed, _ := strconv.Atoi(os.Getenv("VERIF_SEED"))
+	switch {
+	case l1Props[prop]:
+		os.Exit(runL1(prop, *tier, *solver, seed))
+	default:
+		fmt.Printf("INCONCLUSIVE property=%s no check registered\n", prop)
 		os.Exit(2)
 	}
-	fmt.Println("loaded in", time.Since(t0))
-	for _, c := range cubes {
-		if only := os.Getenv("ONLY"); only != "" && only != c.ID {
-			continue
-		}
-		runCube(P, c)
-	}
 }
 
-func runCube(P *eng.Program, c *eng.Cube) {
-	defer func() {
-		if r := recover(); r != nil {
-			if ee, ok := r.(eng.EngineError); ok {
-				fmt.Println("ENGINE ERROR:", ee.Msg)
-				return
-			}
-			panic(r)
-		}
-	}()
+func runL1(prop, tier, solver string, seed int) int {
 	t0 := time.Now()
-	l := eng.NewL1(P, c)
-	if os.Getenv("PROFILE") != "" {
-		l.E.Profile = map[string]int{}
-		l.E.ProfileN = map[string]int{}
+	timeout := 600000
+	if tier == "thorough" {
+		timeout = 3600000
 	}
-	l.Build()
-	if l.E.Profile != nil {
-		type kv struct {
-			k string
-			v int
-		}
-		var kvs []kv
-		for k, v := range l.E.Profile {
-			kvs = append(kvs, kv{k, v})
-		}
-		sort.Slice(kvs, func(i, j int) bool { return kvs[i].v > kvs[j].v })
-		for i := 0; i < 30 && i < len(kvs); i++ {
-			fmt.Printf("   %7d terms %5d execs  %s\n", kvs[i].v, l.E.ProfileN[kvs[i].k], kvs[i].k)
-		}
-	}
-	fmt.Printf("cube %s: built in %v, terms=%d procs=%d paths=%d instr=%d\n", c, time.Since(t0), l.E.B.NumTerms(), len(l.S.Procs), l.S.TotalPaths, l.S.TotalInstr)
-	fmt.Println("phase counts:", l.E.B.PhaseCount)
-	fmt.Println("op counts:", l.E.B.OpCounts())
-	if os.Getenv("NOSOLVE") != "" {
-		return
-	}
-	sv, err := eng.NewSolver(l.E.B, "z3-new", 1200000)
+	run, _, err := eng.RunL1(prop, tier, solver, timeout)
 	if err != nil {
-		panic(err)
+		fmt.Printf("INCONCLUSIVE property=%s load/build failed: %v\n", prop, err)
+		return 2
 	}
-	if f := os.Getenv("SMTLOG"); f != "" {
-		w, _ := os.Create(f + "." + c.ID + ".smt2")
-		sv.Log = w
-		defer w.Close()
-	}
-	defer sv.Close()
-	if os.Getenv("COMBINED") != "" {
-		t1 := time.Now()
-		any := l.E.B.False
-		for _, ob := range l.Obligations() {
-			if !ob.WantSat {
-				any = l.E.B.Or(any, ob.Assert)
+	findings := eng.LoadFindings(filepath.Join(verifDir, "known_findings.json"))
+	exit := 0
+	queries, discharged, obligations, nontrivial := 0, 0, 0, 0
+	var samples []interface{}
+	var cubesOut []interface{}
+	violations := 0
+	replayed := map[string]string{} // signature -> result
+	inconclusive := []string{}
+	for _, r := range run.Cubes {
+		queries += r.Queries
+		discharged += r.Discharged
+		obligations += r.Obligations
+		if r.NonTrivial {
+			nontrivial++
+		}
+		cubesOut = append(cubesOut, r)
+		if len(samples) < 3 && r.Witness != nil {
+			samples = append(samples, map[string]interface{}{"cube": r.Cube, "witness_schedule_all_jobs_ran": r.Witness})
+		}
+		if r.Inconcl || r.Error != "" {
+			inconclusive = append(inconclusive, fmt.Sprintf("cube %s (%s): %s %v", r.ID, r.Cube, r.Error, r.Notes))
+		}
+		if r.Vacuous {
+			inconclusive = append(inconclusive, fmt.Sprintf("cube %s (%s): vacuity witness unsatisfiable", r.ID, r.Cube))
+		}
+		for _, v := range r.Violations {
+			if v.Prop != prop {
+				continue
+			}
+			if res, seen := replayed[v.Sig]; seen {
+				_ = res
+				continue
+			}
+			path, err := eng.WriteReplayL1(filepath.Join(verifDir, "replay"), v, 30000)
+			if err != nil {
+				inconclusive = append(inconclusive, "cannot write replay: "+err.Error())
+				continue
+			}
+			ok, out, err := eng.RunReplay(path)
+			last := lastLines(out, 3)
+			switch {
+			case err != nil:
+				replayed[v.Sig] = "error"
+				inconclusive = append(inconclusive, "replay error: "+err.Error())
+			case !ok:
+				replayed[v.Sig] = "unconfirmed"
+				fmt.Printf("UNCONFIRMED-COUNTEREXAMPLE property=%s cube=%s what=%q replay=%s\n%s\n", prop, r.Cube, v.Name, path, last)
+				inconclusive = append(inconclusive, "counterexample did not reproduce on the real build: "+v.Name)
+			default:
+				replayed[v.Sig] = "reproduced"
+				if f := findings.Known(prop, v.Sig); f != nil {
+					fmt.Printf("KNOWN-FINDING: property=%s %s (%s)\n", prop, f.Description, v.Sig)
+				} else {
+					violations++
+					fmt.Printf("VIOLATION property=%s replay=%s\n", prop, path)
+					fmt.Printf("  cube: %s\n  what: %s\n  %s\n", r.Cube, v.Name, last)
+					exit = 1
+				}
 			}
 		}
-		v, _, err := sv.Check(append([]*eng.Term{any}, l.S.Constraints...), nil)
-		fmt.Printf("  COMBINED %s %v err=%v\n", v, time.Since(t1), err)
-		return
 	}
-	for _, ob := range l.Obligations() {
-		if op := os.Getenv("ONLYPROP"); op != "" && op != ob.Prop {
-			continue
-		}
-		t1 := time.Now()
-		as := append([]*eng.Term{ob.Assert}, l.S.Constraints...)
-		v, model, err := sv.Check(as, l.ModelTerms())
-		fmt.Printf("  [%s] %-70s %s (want sat=%v) %v err=%v\n", ob.Prop, ob.Name, v, ob.WantSat, time.Since(t1), err)
-		if v == eng.Sat && !ob.WantSat {
-			for _, st := range l.Decode(func(t *eng.Term) uint64 { return model[t.ID] }) {
-				fmt.Printf("      t=%d p%d(%s) %s peer=%d\n", st.T, st.Pid, st.Proc, st.What, st.Peer)
-			}
-			for k, o := range l.Out {
-				fmt.Printf("      out_%d=%d\n", k, model[o.ID])
-			}
-		}
+	if len(inconclusive) > 0 && exit == 0 {
+		exit = 2
 	}
+	for _, m := range inconclusive {
+		fmt.Printf("INCONCLUSIVE property=%s %s\n", prop, m)
+	}
+	if len(samples) == 0 {
+		samples = append(samples, "no witness decoded")
+	}
+	plan := eng.L1Plan(prop, tier)
+	var cubeNames []string
+	for _, c := range plan {
+		cubeNames = append(cubeNames, c.String())
+	}
+	sort.Strings(cubeNames)
+	ev := &eng.Evidence{PropertyID: prop, Tier: tier, Seed: seed, Level: "model_checking", WallS: time.Since(t0).Seconds(), Violations: violations,
+		Coverage: map[string]interface{}{
+			"evaluations":                   queries,
+			"distinct_nontrivial":           nontrivial,
+			"rule":                          "one case = one cube (DAG shape x worker count x error mode x environment family); inside a cube the schedule (every interleaving of caller, scheduler loop, workers, ticker, timer), job outcomes and cancellation instants are solver variables; a cube counts as non-trivial when its reachability witness (all jobs ran and the caller returned, resp. a state report was emitted) is satisfiable; evaluations = SMT queries answered",
+			"samples":                       samples,
+			"exhaustive":                    false,
+			"obligations":                   obligations,
+			"discharged":                    discharged,
+			"traces_validated_against_impl": len(replayed),
+			"explanation":                   "bounded model checking of scheduler/scheduler.go from its go/ssa form under a symbolic scheduler; unsat = holds for every interleaving/outcome of the cube; bounds are the cube list below; step bound K is checked per cube by the completeness obligation (no process enabled after K steps), loops/pools by the unwinding obligation, absence of runtime faults by the fault obligation",
+			"solver":                        solver,
+			"functions_encoded":             run.Encoded,
+			"cubes":                         cubesOut,
+			"cube_list":                     cubeNames,
+			"load_seconds":                  run.LoadS,
+			"replay_results":                replayed,
+			"trusted_base":                  trustedBaseL1,
+		},
+		Assumptions: assumptionsL1,
+	}
+	if err := eng.WriteEvidence(filepath.Join(verifDir, "evidence"), ev); err != nil {
+		fmt.Println("cannot write evidence:", err)
+		return 2
+	}
+	fmt.Printf("property=%s tier=%s cubes=%d queries=%d obligations=%d discharged=%d nontrivial=%d violations=%d wall=%.1fs exit=%d\n",
+		prop, tier, len(run.Cubes), queries, obligations, discharged, nontrivial, violations, time.Since(t0).Seconds(), exit)
+	return exit
+}
+
+var trustedBaseL1 = []string{
+	"golang.org/x/tools/go/ssa construction of the SSA form",
+	"this engine's semantics of SSA instructions, channels, select, defer/panic/Goexit",
+	"z3 5.1.0 (z3-new)",
+	"data-race freedom of the scheduler (only synchronisation operations are interleaving points)",
+}
+
+var assumptionsL1 = []string{
+	"user job bodies are stubs: start and end are separate events; outcome in the cube's outcome set; at most MaxGoex Goexit outcomes",
+	"context = close-only channel with Err()/Done(); cancellation sources: before the call, from a job body, from a timer at any step",
+	"time.Ticker = capacity-1 channel fed by an environment process, at most Ticks ticks, none after Stop",
+	"container/list is modelled as a bounded FIFO sequence (New/Len/Front/PushBack/Remove); other list API is unsupported",
+	"errors.New/errors.Is/multierr.Append are engine-level models (identity, membership, nil-absorbing flattening append)",
+	"append growth follows runtime.growslice size classes for small slices; slice lengths in scheduler state bounded by J (checked by the unwinding obligation)",
+	"an unbuffered send is handed to the lowest-numbered goroutine parked at a plain receive on that channel (symmetry reduction over identical workers)",
+	"runtime faults (nil dereference, index out of range, send on closed channel) are not explored further; their reachability is the separate 'fault' obligation",
+}
+
+func lastLines(s string, n int) string {
+	ls := strings.Split(strings.TrimSpace(s), "\n")
+	if len(ls) > n {
+		ls = ls[len(ls)-n:]
+	}
+	return "  " + strings.Join(ls, "\n  ")
 }
